@@ -3,6 +3,8 @@ import Driver.CmdFilter
 import Driver.CmdCtl
 import Driver.CmdLog
 import Driver.CmdPipe
+import Driver.CmdPoll
+import Driver.CmdInc
 open Lean Driver
 
 def dispatch (cmd : String) (j : Json) : R Json :=
@@ -14,6 +16,9 @@ def dispatch (cmd : String) (j : Json) : R Json :=
   | "log.run" => cmdLogRun j
   | "pipe.run" => cmdPipeRun j
   | "mesh.bounds" => cmdMeshBounds j
+  | "poll.dirs" => cmdPollDirs j
+  | "prop.dirs" => cmdPropDirs j
+  | "inc.run" => cmdIncRun j
   | _ => throw s!"unknown command '{cmd}'"
 
 def handleLine (line : String) : String :=
